@@ -137,6 +137,9 @@ func (v *VStruct) getValidFn(validName string) (CommonValidFn, error) {
 // isValidGatherObj 是否验证集合对象, 包含: slice/array/map
 func (v *VStruct) validate(structName string, value reflect.Value, isValidGatherObj ...bool) *VStruct {
 	tv := RemoveValuePtr(value)
+	if !tv.IsValid() { // nil 指针(集合中的 nil 元素, 或指向 nil 指针的指针)没有可验证的内容
+		return v
+	}
 	ty := tv.Type()
 	// fmt.Printf("ty: %v, structName: %q\n", ty, structName)
 	// 如果不是结构体就退出
